@@ -366,6 +366,8 @@ def run(ck, facts):
             elif x.get("k") == "match":
                 for arm in x["arms"]:
                     tests.append((arm["pat"], x["s"], arm["b"]))
+            elif x.get("k") == "letst" and x.get("els") is not None and x.get("init") is not None:
+                tests.append((x.get("pat"), x["init"], C.fn_body(f_)))     # let-else: the bindings live to the end of the enclosing block
             for pat, init, body_ in tests:
                 if not (isinstance(init, dict) and any(y.get("k") == "field" and y.get("n") == "reference" and "SelfParam" in (y.get("bty") or "") for y in C.walk(init))):
                     continue
